@@ -704,6 +704,13 @@ func (e *Env) call(x *Expr) TTerm {
 			return I("(gs.byteat " + a[0].S + " " + a[1].S + ")")
 		}
 		return e.fail("byteOf(string, index)")
+	case "pointeeStr", "pointeeVal":
+		// pointeeStr(v) / pointeeVal(v): the string / value variable that the pointer boxed in the interface value v refers to
+		if need(1) && a[0].Sort == "Val" {
+			srt := map[string]string{"pointeeStr": "Str", "pointeeVal": "Val"}[x.Name]
+			return TTerm{S: "(select " + e.famOf(e.g.CellFamily(srt)) + " (voref " + a[0].S + "))", Sort: srt}
+		}
+		return e.fail("%s(interface value holding a pointer)", x.Name)
 	case "funcId":
 		// funcId("pkg.Name"): the value of the named function when it is passed as an argument
 		if len(x.Args) == 1 && x.Args[0].Op == "str" {
